@@ -254,19 +254,27 @@ def _compute(ctx):
                 o = [ord_of(a) for a in e.args if ord_of(a) is not None]
                 need(pi.name, "link-cas", bool(o) and has_rel(o[0]), o[0] if o else "?", "Release", e.loc(),
                      "the node's payload is written before it is linked; a consumer that acquires the link must see it")
-    for fn in (Q + "pop_internal", Q + "pop_if_internal"):
+    pops = [(fn, exq) for fn in (Q + "pop_internal", Q + "pop_if_internal") if fn in prog.bodies]
+    if len(pops) < 2:
+        # an internal pop function is gone (refactored away): the same obligations on the paths of the wrappers, with everything
+        # the queue keeps private read inlined
+        priv = {nm for nm, b in prog.bodies.items() if nm.startswith(Q) and b.kind != "closure"
+                and nm.split("::")[-1] not in ("try_pop", "try_pop_if", "push", "new")}
+        exfull = Exec(prog, inline=priv)
+        pops = [(Q + "try_pop", exfull), (Q + "try_pop_if", exfull)]
+    for fn, exq_ in pops:
         bb = prog.body(fn)
         r.functions.add(fn)
         seen = set()
-        for p in exq.paths(bb):
+        for p in exq_.paths(bb):
             rd = [i for i, e in enumerate(p.events) if e.kind == "call" and
                   ("assume_init_read" in (e.target or "") or ("Fn" in (e.target or "") and "call" in (e.target or "")))]
             if not rd:
                 continue
             for (i, e, op) in ra_events(p):
                 if op == "load" and i < rd[0] and outer_field(e.args[0]) in ("Node.next", "Queue.head") and \
-                        (e.bb, outer_field(e.args[0])) not in seen:
-                    seen.add((e.bb, outer_field(e.args[0])))
+                        (e.body.name, e.bb, outer_field(e.args[0])) not in seen:
+                    seen.add((e.body.name, e.bb, outer_field(e.args[0])))
                     o = [ord_of(a) for a in e.args if ord_of(a) is not None]
                     need(fn, "load:" + outer_field(e.args[0]), bool(o) and has_acq(o[0]), o[0] if o else "?", "Acquire", e.loc(),
                          "the payload of the node reached through this pointer is read (or given to the predicate) afterwards")
